@@ -23,6 +23,7 @@ def run(ctx, R, tier):
     swap(F, R)
     c06.sib(F, R)
     c06.prev(F, R)
+    c06.set_unconditional(F, R, rule='B.C17.set')
 
 
 def once(F, R):
